@@ -78,9 +78,13 @@ messages and `uidNext` (= `GetMailboxMessageCountAndUID`: COUNT(*) and `seq + 1`
   when its argument is `≥` the maximum, so the argument is the count *before* the last one is added);
   then the named mailbox and all `parents` missing superiors are created.  A refusal of either check is an
   error return of the transaction body before anything was created.
-* `renameParents parents` — `State.Rename`: the `parents` missing superiors of the NEW name are created
-  (`CreateMailboxIfNotExists` in a loop; `renameInbox` creates one mailbox more, the new home of INBOX's
-  messages: count it in `parents`) with **no** limit check at all.
+* `renameParents parents` — `State.Rename`: once the list of the missing superiors of the NEW name is complete
+  (`newMailboxes := len(mboxesToCreate)`, plus one when INBOX is renamed: `renameInbox` creates the mailbox that
+  takes over its messages — count it in `parents`), and before the loop that creates them (connector
+  `CreateMailbox` + `CreateMailboxIfNotExists`): `if newMailboxes > 0 { CheckMailBoxCount(GetMailboxCount() +
+  newMailboxes - 1) }` — room for all of them; with nothing to create no check is made (the renamed mailbox
+  exists already) and the count does not change.  A refusal is an error return of the transaction body before
+  anything was created or renamed.
 * `addTx n` — `AddMessagesToMailbox` / `MoveMessagesFromMailbox` (COPY, MOVE, connector batches):
   count and UID are read and checked inside the transaction that inserts the `n` messages.
 * `replaceTx k n` — COPY / MOVE of `n` messages of which `k` already have a copy in the destination
@@ -122,7 +126,9 @@ def step (l : IMAP) (w : World) : Ev → World
         && (checkMailBoxCount l ((w.mailboxes : Int) + ((parents : Int) + 1) - 1)).isNone then
       { w with mailboxes := w.mailboxes + parents + 1 }
     else w
-  | .renameParents parents => { w with mailboxes := w.mailboxes + parents }
+  | .renameParents parents =>
+    if parents > 0 && !(checkMailBoxCount l ((w.mailboxes : Int) + (parents : Int) - 1)).isNone then w
+    else { w with mailboxes := w.mailboxes + parents }
   | .addTx n =>
     if msgChecks l w n then { w with count := w.count + n, uidNext := w.uidNext + n } else w
   | .replaceTx k n =>
@@ -150,14 +156,6 @@ def Within (l : IMAP) (w : World) : Prop :=
     (w.uidNext : Int) ≤ l.maxUID
 
 instance (l : IMAP) (w : World) : Decidable (Within l w) := by unfold Within; infer_instance
-
-/-- **Named hypothesis `NoRenameParents`**: no RENAME in the history has to create missing superiors
-    of the new name (nor is it a rename of INBOX).  CREATE needs no such hypothesis: it checks the limit
-    for everything it creates. -/
-def NoRenameParents : List Ev → Prop
-  | [] => True
-  | .renameParents p :: rest => p = 0 ∧ NoRenameParents rest
-  | _ :: rest => NoRenameParents rest
 
 /-- schedule discipline behind `ChecksInsideTx`; `pending` = the session whose check has just run -/
 def CheckThenInsert : (pending : Option Nat) → List Ev → Prop
